@@ -1102,6 +1102,45 @@ def _install(M):
         """numpy.fft.fft(x)[m] = sum_j x[j] exp(-2 pi i j m / n)"""
         return _fft_like(a[0], -1, False, l)
 
+    @reg("numpy.fft.hfft")
+    def _hfft(ex, a, k, l):
+        """numpy.fft.hfft(a, n): real transform of the Hermitian-symmetric signal whose non-negative-time half is a:
+        out[j] = Re a[0] + 2 sum_{m=1}^{n/2-1} Re(a[m] W(-j m, n)) + Re(a[n/2] W(-j n/2, n)),  n even (default 2(len(a)-1)),
+        a padded with zeros / cut to n/2+1 points"""
+        x = a[0]
+        if not (isinstance(x, SymArr) and x.rank == 1):
+            raise Unsupported("numpy.fft.hfft of %r @%s" % (x, l))
+        N = x.shape[0]
+        n = a[1] if len(a) > 1 else k.get("n")
+        if n is None:
+            n = arith("*", 2, arith("-", N, 1))
+        half = arith("//", n, 2)
+        snap = x.snapshot()
+        from .sums import mk_sum
+
+        def term(m, j):
+            am = Cx.of(snap.get([m]))
+            w = _wroot(arith("-", 0, arith("*", j, m)), n)
+            inside = compare("<", m, N)
+            re_ = arith("-", arith("*", am.re, w.re), arith("*", am.im, w.im))
+            return ite(inside, re_, 0)
+
+        def cell(idx):
+            j = idx[0]
+            a0 = Cx.of(snap.get([0])).re
+            mid = mk_sum(None, half, lambda m: arith("*", 2, term(m, j)), lo=1)
+            return arith("+", arith("+", a0, mid), term(half, j))
+        return lam_array((n,), "real", cell)
+
+    @reg("numpy.flipud")
+    def _flipud(ex, a, k, l):
+        x = a[0]
+        if not isinstance(x, SymArr):
+            raise Unsupported("numpy.flipud of %r @%s" % (x, l))
+        snap = x.snapshot()
+        n0 = x.shape[0]
+        return lam_array(x.shape, x.dtype, lambda idx: snap.get([arith("-", arith("-", n0, 1), idx[0])] + list(idx[1:])))
+
     def _roll(x, shift_of_n, l):
         if not (isinstance(x, SymArr) and len(x.shape) == 1):
             raise Unsupported("numpy.fft shift of %r @%s" % (x, l))
